@@ -505,6 +505,10 @@ use {debug_detail, man_link, new_flag, syscall};
 
 /// Lock `mutex` clearing any poison set.
 fn lock<'a, T>(mutex: &'a std::sync::Mutex<T>) -> std::sync::MutexGuard<'a, T> {
+    #[cfg(a10_verif)]
+    if let Some(guard) = verif::lock_hook(mutex) {
+        return guard;
+    }
     match mutex.lock() {
         Ok(guard) => guard,
         Err(err) => {
@@ -517,6 +521,8 @@ fn lock<'a, T>(mutex: &'a std::sync::Mutex<T>) -> std::sync::MutexGuard<'a, T> {
 /// Same as [`lock`], but doesn't block if the mutex is locked.
 #[cfg(any(target_os = "android", target_os = "linux"))]
 fn try_lock<'a, T>(mutex: &'a std::sync::Mutex<T>) -> Option<std::sync::MutexGuard<'a, T>> {
+    #[cfg(a10_verif)]
+    verif::sched_point(verif::TRY_LOCK, std::ptr::from_ref(mutex).addr());
     match mutex.try_lock() {
         Ok(guard) => Some(guard),
         Err(std::sync::TryLockError::Poisoned(err)) => {
@@ -605,6 +611,8 @@ impl PollingState {
     pub(crate) fn set_polling(&self, is_polling: bool) -> bool {
         const _BOOL_CAST_CHECK_TRUE: () = assert!(true as u8 == IS_POLLING);
         const _BOOL_CAST_CHECK_FALSE: () = assert!(false as u8 == NOT_POLLING);
+        #[cfg(a10_verif)]
+        verif::sched_point(verif::RMW_POLLING, std::ptr::from_ref(&self.0).addr());
         let state = self.0.swap(is_polling as u8 | NOT_AWOKEN, Ordering::AcqRel);
         (state & IS_AWOKEN) != 0
     }
@@ -614,6 +622,8 @@ impl PollingState {
     /// Returns a boolean indicating if the caller should submit an event to
     /// wake up the polling thread.
     pub(crate) fn wake(&self) -> bool {
+        #[cfg(a10_verif)]
+        verif::sched_point(verif::RMW_POLLING, std::ptr::from_ref(&self.0).addr());
         let state = self.0.fetch_or(IS_AWOKEN, Ordering::AcqRel);
         state == (IS_POLLING | NOT_AWOKEN)
     }
